@@ -31,7 +31,7 @@ RULE = ("one run = a generated topology (1-3 battery groups of 1-2 batteries beh
 QUICK_RUNS = 1200
 THOROUGH_RUNS = 80_000
 CHUNK = 10
-EXPECT_PROBES = ["partial_failure", "success", "timeout_outcome", "all_calls_failed", "pv_variant", "battery_variant",
+EXPECT_PROBES = ["fractional_api_timeout", "partial_failure", "success", "timeout_outcome", "all_calls_failed", "pv_variant", "battery_variant",
                  "excess_power_nonzero", "uncertain_batteries_used", "shared_inverter_group", "concurrent_requests"]
 
 OUTCOMES = ["ok", "out_of_range", "api_error", "unexpected", "hang"]
@@ -208,7 +208,9 @@ def _battery(sim: Sim) -> None:
     fakes.install_connection_manager(api)
     faulty = ch.chance("faulty_profile", 0.7)
     api.outcome_fn = _outcome_fn(sim, faulty, ch.choice("fault_rate", [2, 1, 5]))
-    timeout_s = 1.0
+    timeout_s = sim.ch.choice("api_timeout_s", [1.0, 0.5, 1.5, 2.0])      # whole and fractional seconds
+    if timeout_s != int(timeout_s):
+        sim.probe("fractional_api_timeout")
     # ---- consistent component data
     bdata: dict[int, dict[str, float]] = {}
     idata: dict[int, dict[str, float]] = {}
@@ -299,7 +301,9 @@ def _pv(sim: Sim) -> None:
     fakes.install_connection_manager(api)
     faulty = ch.chance("faulty_profile", 0.7)
     api.outcome_fn = _outcome_fn(sim, faulty, ch.choice("fault_rate", [2, 1, 5]))
-    timeout_s = 1.0
+    timeout_s = sim.ch.choice("api_timeout_s", [1.0, 0.5, 1.5, 2.0])      # whole and fractional seconds
+    if timeout_s != int(timeout_s):
+        sim.probe("fractional_api_timeout")
     lower = {i: -float(ch.choice("pv_bound", [1000, 300, 5000, 0, 50])) for i in inv_ids}
     total = -sum(lower.values())
     nreq = ch.int_between("nreq", 4, sim.scale(14, 30))
